@@ -18,17 +18,20 @@ From YV Require Import Gen.ScanState Scanner.State.
 Import ListNotations.
 Local Open Scope N_scope.
 
-Ltac sym := cbv -[N.eqb N.add clamp N.min N.testbit N.leb N.shiftl N.shiftr N.lor N.succ probe_tag tl_module tl_cleared_by_main tl_scan_scoped DEFAULT_SCAN_TIMEOUT].
-Ltac sym_in H := cbv -[N.eqb N.add clamp N.min N.testbit N.leb N.shiftl N.shiftr N.lor N.succ probe_tag tl_module tl_cleared_by_main tl_scan_scoped DEFAULT_SCAN_TIMEOUT] in H.
+Ltac sym := cbv -[N.eqb N.ltb N.add clamp N.min N.testbit N.leb N.shiftl N.shiftr N.lor N.succ probe_tag tl_module tl_cleared_by_main tl_scan_scoped DEFAULT_SCAN_TIMEOUT].
+Ltac sym_in H := cbv -[N.eqb N.ltb N.add clamp N.min N.testbit N.leb N.shiftl N.shiftr N.lor N.succ probe_tag tl_module tl_cleared_by_main tl_scan_scoped DEFAULT_SCAN_TIMEOUT] in H.
 
 Ltac goal_atoms :=
   repeat match goal with
+  | |- context [N.ltb ?a ?b] => let e := fresh "e" in destruct (N.ltb a b) eqn:e
   | |- context [N.eqb ?a ?b] => let e := fresh "e" in destruct (N.eqb a b) eqn:e
   end.
 Ltac props :=
   repeat match goal with
   | H : (_ =? _) = true |- _ => apply N.eqb_eq in H
   | H : (_ =? _) = false |- _ => apply N.eqb_neq in H
+  | H : (_ <? _) = true |- _ => apply N.ltb_lt in H
+  | H : (_ <? _) = false |- _ => apply N.ltb_ge in H
   end.
 
 (* the `if`-pushing definition of exec_stmt is the natural one *)
@@ -62,7 +65,7 @@ Lemma reset_body_not_recursive :
                     | _ => true end) reset_body = true.
 Proof. reflexivity. Qed.
 
-Ltac dcell c f t := destruct c as [f| | | | | | | | | | | | | | |t].
+Ltac dcell c f t := destruct c as [f| | | | | | | | | | | | | | | |t].
 
 Definition agree (st1 st2 : state) : Prop := forall c, is_persistent c = true -> st1 c = st2 c.
 
@@ -100,6 +103,11 @@ Proof. intros R st S t I N. rewrite (S t I) in N. discriminate N. Qed.
 (* GENERATED fact: every module main re-initialises every per-thread cache of its module *)
 Lemma all_tl_cleared : forall t, tl_cleared_by_main t = true.
 Proof. destruct t; reflexivity. Qed.
+
+(* PatternMatches::clear(), GENERATED branch table: whatever the total capacity
+   is, on either side of the threshold, no match list keeps its content *)
+Lemma pm_clear_empties_lists : forall st, pm_clear st (CF tracker_pattern_matches) = 0.
+Proof. intros st. unfold pm_clear. destruct (pm_clear_threshold <? st CPMCap); reflexivity. Qed.
 
 (* ---- the prologue of a contiguous scan re-establishes every transient cell ---- *)
 Lemma probe_contig_noninterference : forall R i st1 st2,
@@ -207,7 +215,7 @@ Proof.
   intros E st G. apply ginv_iff in G. apply ginv_iff. sym. goal_atoms; props; try tauto; try lia.
 Qed.
 
-Ltac symr := cbv -[N.eqb N.add clamp N.min N.testbit N.leb N.shiftl N.shiftr N.lor N.succ probe_tag tl_module tl_cleared_by_main tl_scan_scoped DEFAULT_SCAN_TIMEOUT do_reset].
+Ltac symr := cbv -[N.eqb N.ltb N.add clamp N.min N.testbit N.leb N.shiftl N.shiftr N.lor N.succ probe_tag tl_module tl_cleared_by_main tl_scan_scoped DEFAULT_SCAN_TIMEOUT do_reset].
 
 Lemma step_ginv : forall R o st, wf_op o = true -> ginv st = true -> ginv (step R o st) = true.
 Proof.
